@@ -14,6 +14,15 @@ def sh(cmd, **kw):
     return subprocess.run(cmd, shell=True, capture_output=True, text=True, **kw)
 pref = sys.argv[1] if len(sys.argv) > 1 else ""
 rows = []
+# evidence/ must only ever hold records of runs against the unchanged /repo: keep a copy, put it back at the end
+import shutil, tempfile, atexit
+_keep = tempfile.mkdtemp(prefix="evidence-keep-")
+shutil.copytree(os.path.join(VERIF, "evidence"), os.path.join(_keep, "evidence"))
+def _restore():
+    shutil.rmtree(os.path.join(VERIF, "evidence"), ignore_errors=True)
+    shutil.copytree(os.path.join(_keep, "evidence"), os.path.join(VERIF, "evidence"))
+    shutil.rmtree(_keep, ignore_errors=True)
+atexit.register(_restore)
 for d in sorted(glob.glob(os.path.join(VERIF, "seeded", "*"))):
     name = os.path.basename(d)
     if not name.startswith(pref):
